@@ -153,6 +153,7 @@ def run(ctx):
         n_refs += 1
         ok = False
         how = ""
+        al = []
         if pi is not None:
             src, steps = flow.iter_chain(fn, expr_operand(fn, t[2][pi]))
             for name, clo in steps:
@@ -169,6 +170,11 @@ def run(ctx):
             def allow(f):
                 if f[0] == "bool" and f[2] is True and mentions_visibility(db, fn, f[1]):
                     return True
+                if f[0] == "bool" and f[2] is True and peel(f[1])[0] == "phi":
+                    # a visibility flag computed in several arms: one of them must consult the document
+                    leaves = [peel(x) for x in flow.def_exprs(fn, peel(f[1])[1])]
+                    if any(mentions_visibility(db, fn, x) for x in leaves):
+                        return True
                 if f[0] == "variant" and "AnnouncementMessage" in (f[2] or ""):
                     if (f[4] and f[3] in ("Node", "Inventory")) or (not f[4] and f[3] == "Refs"):
                         return True
@@ -179,6 +185,22 @@ def run(ctx):
                 how = "dominated by a branch establishing visibility (or a non-refs announcement)"
             elif not how:
                 how = "no visibility filter on the peers and no dominating visibility branch"
+        if ok and pi is None:
+            # residual: arms of the visibility flag that are constant `true` let a peer through without a decision
+            for (b0, tb, lab, facts) in cfg.all_edge_facts(db, fn):
+                for f in facts:
+                    if f[0] == "bool" and f[2] is True and peel(f[1])[0] == "phi" and (b0, tb, lab) in set(map(tuple, al)) and \
+                            any(mentions_visibility(db, fn, peel(x)) for x in flow.def_exprs(fn, peel(f[1])[1])):
+                        consts = []
+                        for d in graph(fn).defs().get(peel(f[1])[1], []):
+                            if d[0] == "stmt" and d[3][0] == "use" and d[3][1][0] == "k" and d[3][1][1].get("v") == "1":
+                                consts.append(d[1])
+                        for cb in consts:
+                            okc, al2, _ = rules.dom_check(db, fn, [cb], lambda ft: ft[0] == "variant" and ft[4] and ft[3] in ("Public",))
+                            ctx.check(key + ":undecided", bool(okc and al2),
+                                      "every arm of the visibility decision consults the repository's document; an arm that lets the peer through "
+                                      "unconditionally (repository not in local storage) sends a possibly private refs announcement",
+                                      rules.where(fn, cb), fn=fn)
         ctx.check(key, ok, "send of a refs/unknown-kind announcement (%s) is restricted to peers allowed to see the repository: %s" % (why, how),
                   rules.where(fn, bb), fn=fn)
         ctx.sample({"site": rules.where(fn, bb), "kind": kind, "why": why, "restricted": ok, "how": how})
